@@ -504,20 +504,27 @@ def reopen_equal(mtok, itok, fresh):
 
 
 # ---- the dictionaries behind clones as a list (Attr/AttrChain.v, engine attr-chain) ----
+NCHAINKEYS = 11         # chain_keys[] in harness/attr_drv.c, chain_watched in ml/eng_attr.ml
+
+
 def chain_case(rng):
     """clone (XLAT or sharing) from any live level, create attributes through any level (VMCOREINFO
     lines, file.set.N), shrink file.set, free any context (the original too) in any order"""
     ops, live, n = [], [0], 1
-    for _ in range(rng.randint(3, 16)):
+    for _ in range(rng.randint(3, 22)):
         r = rng.random()
         if r < 0.32 and n < 10:
             ops.append("%s:%d" % ("X" if rng.random() < 0.7 else "N", rng.choice(live)))
             live.append(n)
             n += 1
-        elif r < 0.55:
+        elif r < 0.42:
             ops.append("V:%d:%d:%d" % (rng.choice(live), rng.randint(0, 40), rng.randint(1, 12)))
-        elif r < 0.75:
+        elif r < 0.52:
             ops.append("S:%d:%d" % (rng.choice(live), rng.randint(1, 4)))
+        elif r < 0.72:      # set a private (addrxlat.*) or a shared key through any level
+            ops.append("A:%d:%d:%d" % (rng.choice(live), rng.randrange(NCHAINKEYS), rng.randint(1, 250)))
+        elif r < 0.78:
+            ops.append("U:%d:%d" % (rng.choice(live), rng.randrange(NCHAINKEYS)))
         elif len(live) > 1:
             c = rng.choice(live)
             live.remove(c)
